@@ -212,6 +212,109 @@ theorem C03_chain_merge_states_own_keys (stages : List (AStage K V X R)) (states
       subst hj
       exact mergeStates_lookup_foreign st' k (hlater j st' hij hs) states
 
+/-- the stages of a chain whose aggregates are mergeable metrics: stage `i` has the keys `keyLists[i]` -/
+def stagesOf {Y : Type} (keyLists : List (List K)) (m : K → Mergeable Y V R) (sel : K → X → List Y) :
+    List (AStage K V X R) :=
+  keyLists.map fun ks => AStage.ofMergeable ks m sel
+
+/-- **Shards of a CHAIN, states merged by `ChainedRunner.merge_states`, read by `get_result` = the whole run.**
+A chain of any number of named stages whose aggregates are lawful mergeable metrics, all output keys distinct.  Run
+it over any number `≥ 1` of shards (stage `i` of shard `F` having emitted `F[i]`) and once over the whole data
+(`wholeFeeds`), where stage `i`'s whole-run feed is the concatenation of its shard feeds (what `C03_shards_pipeline` /
+`C03_shards_merged_pipeline` give for row-wise stages).  Then every shard run and the whole run return an `agg_state`;
+`ChainedRunner.merge_states` over the RETURNED shard states has an entry under every key `k` of stage `i`, the whole
+run's returned state has one, and `get_result` reports the same value for both — for EVERY aggregating stage of the
+chain, whatever the other stages aggregate. -/
+theorem C03_chain_shards_merged {Y : Type} (keyLists : List (List K)) (hnd : keyLists.flatten.Nodup)
+    (m : K → Mergeable Y V R) (sel : K → X → List Y) (Eqv : K → V → V → Prop) (law : ∀ k, Lawful (m k) (Eqv k))
+    (shardFeeds : List (List (List X))) (hne : shardFeeds ≠ []) (wholeFeeds : List (List X))
+    (i : Nat) (ks : List K) (k : K) (hi : keyLists[i]? = some ks) (hk : k ∈ ks)
+    (hcat : (shardFeeds.flatMap fun F => (F[i]?).getD []) = (wholeFeeds[i]?).getD []) :
+    ∃ (states : List (KV K V)) (whole : KV K V) (v w : V),
+      states.length = shardFeeds.length ∧
+      (∀ (j : Nat) (F : List (List X)) (s : KV K V), shardFeeds[j]? = some F → states[j]? = some s →
+        chainAggState (stagesOf keyLists m sel) none F = .ok s) ∧
+      chainAggState (stagesOf keyLists m sel) none wholeFeeds = .ok whole ∧
+      lookupLast k (chainMergeStates (stagesOf keyLists m sel) states) = some v ∧
+      lookupLast k whole = some w ∧
+      (m k).result v = (m k).result w := by
+  let stages : List (AStage K V X R) := stagesOf keyLists m sel
+  let st : AStage K V X R := AStage.ofMergeable ks m sel
+  have hst : stages[i]? = some st := by
+    simp only [stages, stagesOf, List.getElem?_map, hi]; rfl
+  obtain ⟨hndl, hpw⟩ := List.pairwise_flatten.mp hnd
+  have hstage_nd : ∀ s ∈ stages, s.keys.Nodup := by
+    intro s hs
+    obtain ⟨l, hl, rfl⟩ := List.mem_map.mp hs
+    exact hndl l hl
+  have hlater : ∀ j st', i < j → stages[j]? = some st' → k ∉ st'.keys := by
+    intro j st' hij hj hk'
+    simp only [stages, stagesOf, List.getElem?_map] at hj
+    cases hkj : keyLists[j]? with
+    | none => rw [hkj] at hj; simp at hj
+    | some ks' =>
+      rw [hkj] at hj
+      simp only [Option.map_some, Option.some.injEq] at hj
+      subst hj
+      obtain ⟨hi1, hi2⟩ := List.getElem?_eq_some_iff.mp hi
+      obtain ⟨hj1, hj2⟩ := List.getElem?_eq_some_iff.mp hkj
+      have hd := List.pairwise_iff_getElem.mp hpw i j hi1 hj1 hij
+      rw [hi2, hj2] at hd
+      exact hd k hk k hk' rfl
+  -- one run over per-stage feeds `F`
+  let stateOf : List (List X) → KV K V := fun F =>
+    (chainFinal (fun s : AStage K V X R => s.keys) (fun s => s.create) stages F).flatten
+  let foldOf : List (List X) → V := fun F => (m k).feed (((F[i]?).getD []).map (sel k))
+  have hrun : ∀ F, chainAggState stages none F = .ok (stateOf F) := by
+    intro F
+    have hspec := chainStates_spec (none : Option (KV K V)) (fun s => s.keys) (fun s => s.create) stages F
+      (fun s hs feed => run_none s (hstage_nd s hs) feed)
+    unfold chainAggState
+    rw [hspec]; rfl
+  have hlook : ∀ F, lookupLast k (stateOf F) = some (foldOf F) := by
+    intro F
+    have h := chainFinal_lookup (fun s : AStage K V X R => s.keys) (fun s => s.create) stages F i st k hst hk hlater
+    rw [ofMergeable_fold] at h
+    exact h
+  have hkeys : ∀ F, ((stateOf F).map Prod.fst).Nodup := by
+    intro F
+    simp only [stateOf]
+    rw [chainFinal_keys]
+    simp only [stages, stagesOf, List.flatMap_map]
+    have : (keyLists.flatMap fun ks => (AStage.ofMergeable ks m sel : AStage K V X R).keys) = keyLists.flatten := by
+      rw [List.flatMap_def]; simp [AStage.ofMergeable]
+    rw [this]; exact hnd
+  -- the values the shard states carry under `k`
+  have hvals : ∀ Fs : List (List (List X)),
+      ((Fs.map stateOf).flatten.filter fun kv => decide (kv.1 = k)).map (·.2) = Fs.map foldOf := by
+    intro Fs
+    rw [filter_map_flatten]
+    induction Fs with
+    | nil => rfl
+    | cons F Fs ih =>
+      simp only [List.map_cons, List.flatMap_cons, filter_key_of_nodup k (stateOf F) (hkeys F), hlook F,
+        Option.toList_some, List.singleton_append, ih]
+  obtain ⟨F0, Fs, rfl⟩ := List.exists_cons_of_ne_nil hne
+  -- merged entry = `merge_states` of the per-shard states of the metric = its sharded state
+  have hmerged : lookupLast k (chainMergeStates stages ((F0 :: Fs).map stateOf))
+      = some ((m k).sharded ((F0 :: Fs).map fun F => ((F[i]?).getD []).map (sel k))) := by
+    apply C03_chain_merge_states_own_keys stages _ i st k hst hk hlater
+    rw [hvals]
+    simp only [List.map_cons, mergeVals, Mergeable.sharded, Mergeable.mergeStates, List.map_map, foldOf]
+    rfl
+  refine ⟨(F0 :: Fs).map stateOf, stateOf wholeFeeds, _, foldOf wholeFeeds, by simp, ?_, hrun wholeFeeds, hmerged,
+    hlook wholeFeeds, ?_⟩
+  · intro j F s hF hs
+    rw [List.getElem?_map, hF] at hs
+    simp only [Option.map_some, Option.some.injEq] at hs
+    subst hs
+    exact hrun F
+  · rw [(law k).sharded_result]
+    simp only [foldOf]
+    rw [(law k).result_congr ((law k).feed_eq _), ← hcat]
+    congr 1
+    simp only [List.map_map, List.flatMap_def, List.map_flatten, List.flatten_flatten, Function.comp_def]
+
 end Chain
 
 /-! ## Non-vacuity (tests of the definitions, `decide`d) -/
@@ -233,5 +336,13 @@ example : (∀ st ∈ exStages, st.keys.Nodup) ∧
   intro st hst
   simp only [exStages, List.mem_cons, List.not_mem_nil, or_false] at hst
   rcases hst with rfl | rfl | rfl <;> decide
+
+/-- the hypotheses of `C03_chain_shards_merged` are met: distinct keys over two stages, a lawful metric, two shards whose
+stage feeds concatenate to the whole run's -/
+example : ([["first"], ["second", "third"]] : List (List String)).flatten.Nodup ∧
+    Lawful momentsM (· = ·) ∧
+    (([[[1, 2], [2, 4]], [[3], [6]]] : List (List (List Int))).flatMap fun F => (F[1]?).getD [])
+      = (([[1, 2, 3], [2, 4, 6]] : List (List Int))[1]?).getD [] :=
+  ⟨by decide, momentsM_lawfulComm.toLawful, by decide⟩
 
 end MlModel.C03
